@@ -157,6 +157,13 @@ Theorem C09_unknown_keyword_rejected : forall strict schema conf vs, schema_ok s
 Proof. exact unknown_keyword_rejected. Qed.
 Print Assumptions C09_unknown_keyword_rejected.
 
+(* "begins with a keyword" in the theorems above and below is equality of the lower-cased WHOLE first word of the line
+   with a registered keyword (not a prefix test, not a substring test) *)
+Theorem C09_keyword_is_whole_word : forall allowed l,
+  starts_with_keyword allowed l <-> In (to_lower (first_token (strip_cr l))) allowed.
+Proof. exact starts_with_keyword_iff. Qed.
+Print Assumptions C09_keyword_is_whole_word.
+
 (* the same on the ORIGINAL text: if conf = A ++ L ++ B is accepted, where L is a whole line none of whose characters,
    nor the line ends around it, lies in the range of a looked-up value (line_untouched), then L is blank or begins
    with a keyword of the schema.  So a misspelt keyword or a keyword of another context, on a line that no value
@@ -310,6 +317,17 @@ Proof.
   split; [eexists; vm_compute; repeat split|].
   split; [vm_compute; reflexivity|]. split; [vm_compute; reflexivity|]. eexists. vm_compute. reflexivity.
 Qed.
+
+(* a proper prefix ("widt", "w"), an extension ("widths") and a transposition ("witdh") of the keyword width are refused;
+   a change of letter case ("WIDTH") is accepted with the same value *)
+Example C09_example_misspelt_keywords :
+  parse_config true [(str_width, KReal)] [119; 105; 100; 116; 32; 48; 46; 53; 10] = PReject /\
+  parse_config true [(str_width, KReal)] [119; 32; 48; 46; 53; 10] = PReject /\
+  parse_config true [(str_width, KReal)] [119; 105; 100; 116; 104; 115; 32; 48; 46; 53; 10] = PReject /\
+  parse_config true [(str_width, KReal)] [119; 105; 116; 100; 104; 32; 48; 46; 53; 10] = PReject /\
+  parse_config true [(str_width, KReal)] [87; 73; 68; 84; 72; 32; 48; 46; 53; 10] =
+  parse_config true [(str_width, KReal)] [119; 105; 100; 116; 104; 32; 48; 46; 53; 10].
+Proof. repeat split; vm_compute; reflexivity. Qed.
 
 Example C09_example_layout :   (* "a 1\r\nb 2 # c\n\n" and "a 1\nb 2 \n" are the same configuration *)
   strip_comments [97; 32; 49; 13; 10; 98; 32; 50; 32; 35; 32; 99; 10; 10] =
